@@ -32,13 +32,13 @@ def nested_with_hole(rng):
     m["info"]["topology"] = "nested+nonconductive-hole"; m["info"]["hole"] = (off, r)
     return m
 
-def gen_problem(rng, kind, quick):
+def gen_problem(rng, kind, quick, level=1):
     if kind == "hole": m = nested_with_hole(rng)
     elif kind == "nested":
         n = rng.choice([1, 2, 2, 3, 3, 4]); radii = [1.0]            # 1 layer: singular head matrix on this tree (discarded, counted)
         for _ in range(n - 1): radii.insert(0, radii[0] * rng.uniform(0.7, 0.92))
-        m = models.nested(radii, [rng.choice([1.0, 0.0125, 0.33, 1.79, rng.uniform(0.05, 5)]) for _ in range(n)], 1); m["info"]["topology"] = "nested"
-    else: m = models.random_model(rng, 1, kinds=(kind,)); m["info"]["topology"] = kind
+        m = models.nested(radii, [rng.choice([1.0, 0.0125, 0.33, 1.79, rng.uniform(0.05, 5)]) for _ in range(n)], level); m["info"]["topology"] = "nested"
+    else: m = models.random_model(rng, level, kinds=(kind,)); m["info"]["topology"] = kind
     R = m["info"]["outer_radius"]; c = m["info"].get("centre", (0, 0, 0))
     ne = rng.choice([1, 1, 3, 8]); nm = rng.choice([1, 1, 4, 7]); nd = rng.choice([1, 1, 2, 5])
     eeg = models.sensors_on_sphere(rng, ne, c, R)
@@ -122,11 +122,24 @@ def evaluate(pb, r, ref):
                             % (PATHS[k], "P + B*solve(H,S)" if k >= 3 else "A*solve(H,S)", w[1], w[2], w[3], w[4], w[0], tolf * (se if k < 3 else sm), r["cond"]), (k, w[1], w[2])))
     return out
 
+def run_model_big(lines):
+    """core.run_model with the stack limit lifted: the extracted list functions and the driver's List.map recurse once per
+    matrix entry (1.3e6 entries for the 162-vertex heads of the thorough tier)"""
+    import subprocess, resource
+    def lift():
+        try: resource.setrlimit(resource.RLIMIT_STACK, (resource.RLIM_INFINITY, resource.RLIM_INFINITY))
+        except (ValueError, OSError): pass
+    p = subprocess.run([os.path.join(core.EXTRACT, "omm")], input=("\n".join(lines) + "\n").encode(), stdout=subprocess.PIPE, stderr=subprocess.PIPE, preexec_fn=lift)
+    if p.returncode != 0: raise RuntimeError("model driver failed: " + p.stderr.decode()[-2000:])
+    out = p.stdout.decode().split("\n")
+    if out and out[-1] == "": out.pop()
+    return out
+
 def reference(r):
     """one model call: rows = EEG sensors then MEG sensors, P padded with zeros for the EEG rows"""
     nd, me, mm, n = r["nd"], r["me"], r["mm"], r["n"]
     line = core.fcase("c04", [n, nd, me + mm, 1], r["H"] + r["S"] + r["A"] + r["B"] + [0.0] * (me * nd) + r["P"])
-    z, f = core.fparse(core.run_model([line])[0])
+    z, f = core.fparse(run_model_big([line])[0])
     if z is None or z[0] != 0 or len(f) != (me + mm) * nd: return None
     return f[:me * nd], f[me * nd:]
 
@@ -192,7 +205,7 @@ def main(replay=None):
             ["nested", "split", "inclusions", "hole", "nonconductive"] * 6
     dist = {}; samples = []
     for mid, kind in enumerate(kinds):
-        pb = gen_problem(ck.rng, kind, quick)
+        pb = gen_problem(ck.rng, kind, quick, level=2 if (not quick and mid in (5, 11)) else 1)    # thorough: two heads with 162-vertex meshes
         for sig, text, rep in run_problem(ck, hb, pb, mid, stats): ck.violation(sig, text, rep)
         key = "%s d%d e%d m%d" % (kind, len(pb["dips"]), len(pb["eeg"]), len(pb["mpos"])); dist[key] = dist.get(key, 0) + 1
         if len(samples) < 3: samples.append(json.dumps(dict(kind=kind, dips=pb["dips"][:2], eeg=pb["eeg"][:1]))[:300])
@@ -207,4 +220,6 @@ def main(replay=None):
     ck.assumptions += ["LAPACK DSPTRF/DSPTRS/DSPTRI contract (solveLin returns H^-1 B): Section hypothesis solveLin_spec",
                        "column i of the batch source matrix = source column of dipole i alone: C08 (Properties_C08.dsm_column_local), premise of the adjoint theorems",
                        "heads whose head matrix has cond > 1e8 (non-conductive inclusions on this tree: singular, DESIGN 4 #14) are excluded from the path comparisons and counted"]
+    ck.cov["trusted_base"] += ["translators/t_gain.py (index arithmetic of SymMatrix::solveLin and gain.h -> coq/Gen/GenGain.v, regenerated on every run)"]
+    ck.drop_proof_violation_if(any(v[3] for v in ck.violations))
     return ck.finish()
